@@ -17,7 +17,27 @@ def build(rng, dtls):
     n = rng.choice(enc.MANY_COUNTS) if rng.random() < .06 else rng.choice((0, 1, 1, 2, 3, 5))
     w = core.Writer()
     vals = []
-    for _ in range(n):
+    mode = rng.random()
+    if mode < .08:
+        # many records of the smallest possible size (a bound on the number of records derived from the buffer length would
+        # have to assume a minimum record size)
+        n = rng.choice((5, 6, 7, 8, 9, 10, 12) + enc.MANY_COUNTS)
+    big_at = rng.randrange(n) if n and .08 <= mode < .13 else None      # one record of limit size, at any position
+    for k in range(n):
+        if mode < .08 or k == big_at:
+            ver = rng.choice((0x0303, 0xfefd, rng.randrange(65536)))
+            ct = rng.choice((20, 21) if dtls else (23, 23, 20, 21)) if mode < .08 else 20
+            L = (0 if ct == 23 else 1 if ct == 20 else 2) if mode < .08 else rng.choice((16383, 16384, 16385, 16639, 16640))
+            body = b'\x01' * L if ct == 20 else (bytes([1, rng.randrange(256)]) if ct == 21 else b'')
+            off = w.pos()
+            ep, sq = rng.randrange(65536), rng.randrange(2 ** 48)
+            w.raw(bytes([ct]) + ver.to_bytes(2, 'big') + ((ep.to_bytes(2, 'big') + sq.to_bytes(6, 'big')) if dtls else b'') + L.to_bytes(2, 'big') + body)
+            msgs = ['CCS'] * L if ct == 20 else ['(Alert 1 %d)' % body[1]] if ct == 21 else ['(App +0)']
+            if dtls:
+                vals.append('(DPlain (DHdr %d %d %d %d %d) %s)' % (ct, ver, ep, sq, L, core.lst('(M 0 %s)' % m for m in msgs)))
+            else:
+                vals.append('(Plain (Hdr %d %d %d) %s)' % (ct, ver, L, core.lst(msgs)))
+            continue
         vals.append(enc.gen_dtls_record(rng, w, big=120 if n < 8 else 4) if dtls else enc.gen_plaintext_record(rng, w, big=120 if n < 8 else 4))
     kind = rng.choice(('none', 'truncated', 'oversized', 'garbage', 'shortheader', 'badcontent', 'cutmessage', 'emptyrecord'))
     hdrlen = 13 if dtls else 5
@@ -113,7 +133,7 @@ def run(ctx):
     common.run_differential(ctx, mutants, common.proj_value)
     common.lean_failure_violation(ctx, ok)
     return ctx.finish(LEVEL,
-        rule='buffers = 0..5 (sometimes 15..400) valid TLS (resp. DTLS) records followed by nothing / a truncated record / an oversized header / a complete record of unknown type / a short header / a record with bad content / a complete record whose message is cut short / an empty record; oracle: exactly the leading records, remainder = the tail, success iff the single-record parser succeeds on the same buffer; tls_parser vs parse_tls_plaintext on every buffer; distinct = (op, tail kind, record count class, outcome)',
+        rule='buffers = 0..5 (sometimes 15..400) valid TLS (resp. DTLS) records (sometimes all of the smallest possible size, sometimes one of limit size 16383..16640 at any position) followed by nothing / a truncated record / an oversized header / a complete record of unknown type / a short header / a record with bad content / a complete record whose message is cut short / an empty record; oracle: exactly the leading records, remainder = the tail, success iff the single-record parser succeeds on the same buffer; tls_parser vs parse_tls_plaintext on every buffer; distinct = (op, tail kind, record count class, outcome)',
         checker_cmd='cd /verif/lean && lake build TlsModel.Props.C16 TlsModel.Props.C10',
         assumptions=[])
 
